@@ -60,7 +60,13 @@ class PairingRoles:
         # builds the sparse Fq12 line value from a stored coefficient triple (whole or destructured) and the G1 point's coordinates
         def strip_ref(t):
             return t.lstrip("&").replace("mut ", "").strip()
-        self.sparse = [b for b in fns if b.rec.get("output") == FQ12 and not any(strip_ref(t) in (FQ12, G1T, G2T) for t in b.rec["inputs"])
+        def fq12_like(out):
+            """Fq12 itself, or a crate-local newtype around it (a tagged line value)"""
+            if out == FQ12:
+                return True
+            a = F.adts.get(out or "")
+            return bool(a) and len(a.get("variants") or []) == 1 and [f["ty"] for f in a["variants"][0]["fields"]] == [FQ12]
+        self.sparse = [b for b in fns if fq12_like(b.rec.get("output")) and not any(strip_ref(t) in (FQ12, G1T, G2T) for t in b.rec["inputs"])
                        and any(strip_ref(t) in (TRIPLE, FQ2) for t in b.rec["inputs"]) and any(strip_ref(t) == FQ for t in b.rec["inputs"])]
         self.jac_loop = [b for b in g(["&" + G2T, "&" + G1T], FQ12) if b.vis == "Public"]
         self.prepared_ty = None
